@@ -14,7 +14,7 @@ from . import common as C
 
 
 def expand():
-    tdir = os.path.join(C.CACHE, "target-expand")
+    tdir = os.path.join(C.TBASE, "target-expand")
     p = C.run(["cargo", "+nightly", "rustc", "--offline", "--release", "--", "-Zunpretty=expanded"], cwd=C.HARNESS,
               timeout=3000, check=False, capture=True,
               env={"CARGO_TARGET_DIR": tdir, "RUSTFLAGS": f"--cfg {C.GUARD}"})
